@@ -147,6 +147,17 @@ func (w *Worker) Account(c Case, r Result) {
 
 func (w *Worker) Count(name string, n int64) { w.Counters[name] += n }
 
+// Record stores a violation the unit observed itself (an explorer that already holds the failing
+// execution in its hands); the case is not evaluated again, because a violation that depends on
+// what the process did before would not show a second time. The coordinator still confirms it
+// (alone, or by re-running the unit in fresh processes).
+func (w *Worker) Record(c Case, o Obs) {
+	w.Evaluations++
+	w.States++
+	w.Transitions++
+	w.violation(c, o)
+}
+
 // Flooded: the unit has already seen so many violating cases that enumerating the rest of it
 // would only repeat them (each may cost a full statement budget). Enumerators may stop; the unit
 // is then reported as not exhaustive — the violations found so far are reported as usual.
